@@ -1,6 +1,7 @@
 import PyYetiVerif.Lemmas.Coord
 import PyYetiVerif.Lemmas.CoordSph
 import PyYetiVerif.Lemmas.CoordRbe3
+import PyYetiVerif.Lemmas.CoordRbe3Um
 import PyYetiVerif.Lemmas.CoordChain
 /-!
 # C14 — coordinate systems and rigid-body geometry are mutually consistent
@@ -35,7 +36,10 @@ pyyeti/nastran/n2p.py by the correspondence check.  Round-off is outside these s
   maps the rigid-body modes (relative to any reference point) of the independent DOF to those of the
   dependent DOF when the weights are positive and the independent rows have full column rank (the
   normal-equations argument), for every exact `solve`; `rbe3_um_indep`, `rbe3_um_mixed`, `rbe3_um_dep`: the
-  three `UM_List` re-partitions keep that property; `um_plan_*`: which branch the DOF bookkeeping takes.
+  three `UM_List` re-partitions keep that property; `um_plan_branch`, `um_plan_indep`, `um_plan_dep`: the
+  branch the DOF bookkeeping takes is determined by where the m-set DOF lie; `rbe3_um_any`,
+  `rbe3_um_any_grids`: branch choice, re-partition and final reordering together, for every admissible
+  `UM_List`.
 * `chain_order_irrelevant`, `chain_circular_refused`, `chain_resolved`: `build_coords` does not depend on
   the order of the cards, refuses reference cycles / undefined references, and every entry of its
   dictionary is the A-B-C construction of its card relative to the entry of the card's reference.
@@ -354,33 +358,92 @@ example : IsPartition (fun _ : Fin 1 => (⟨1, by decide⟩ : Fin 3))
     · exact ⟨Sum.inl 0, rfl⟩
     · exact ⟨Sum.inr 1, rfl⟩
 
-/-- **partial** — the full statement "the branch taken by `formrbe3` matches where the m-set lies" fails on
-the unchanged code when the m-set holds the *first* dependent DOF and otherwise independent DOF
-(`um_plan_indep_counterexample`: the code raises); it holds when the first dependent DOF is not in the m-set -/
-theorem um_plan_indep_partial {ddof idof mdof : List Nat} {nuset : Nat} {p : UmPlan}
-    (hfirst : ∀ k, ddof.head? = some k → k ∉ mdof)
+/-- which `UM_List` branch `formrbe3` takes: by where the m-set DOF lie, nothing else -/
+theorem um_plan_branch {ddof idof mdof : List Nat} {nuset : Nat} {p : UmPlan}
+    (h : umPlan ddof idof mdof nuset = some p) :
+    (p.branch = .indep ↔ ∀ k ∈ mdof, k ∉ ddof) ∧
+    (p.branch = .dep ↔ (∃ k ∈ mdof, k ∈ ddof) ∧ ∀ k ∈ mdof, k ∉ idof) ∧
+    (p.branch = .mixed ↔ (∃ k ∈ mdof, k ∈ ddof) ∧ ∃ k ∈ mdof, k ∈ idof) :=
+  umPlan_spec h
+
+/-- the branch "m-set inside the independent set": no m-set DOF is dependent, all are independent -/
+theorem um_plan_indep {ddof idof mdof : List Nat} {nuset : Nat} {p : UmPlan}
     (h : umPlan ddof idof mdof nuset = some p) (hb : p.branch = .indep) :
     (∀ k ∈ mdof, k ∉ ddof ∧ k ∈ idof) ∧ p.im = positions idof mdof
       ∧ p.inn = complIdx (positions idof mdof) idof.length :=
-  umPlan_indep_partial hfirst h hb
+  umPlan_indep h hb
 
-/-- **partial** — fails on the unchanged code when the m-set holds the *first* independent DOF and
-otherwise dependent DOF (`um_plan_dep_counterexample`: 5 rows are returned for a 6-DOF m-set) -/
-theorem um_plan_dep_partial {ddof idof mdof : List Nat} {nuset : Nat} {p : UmPlan}
-    (hfirst : ∀ k, idof.head? = some k → k ∉ mdof)
+/-- the branch "m-set = dependent DOF": no m-set DOF is independent -/
+theorem um_plan_dep {ddof idof mdof : List Nat} {nuset : Nat} {p : UmPlan}
     (h : umPlan ddof idof mdof nuset = some p) (hb : p.branch = .dep) :
     (∀ k ∈ mdof, k ∉ idof) ∧ p.dm = positions ddof mdof :=
-  umPlan_dep_partial hfirst h hb
+  umPlan_dep h hb
 
-theorem um_plan_dep_counterexample :
-    (umPlan [24, 25, 26, 27, 28, 29] [0, 1, 2, 6, 7, 8, 12, 13, 14, 18, 19, 20]
-      [0, 24, 25, 26, 27, 28] 30).map (fun p => (p.branch, p.dm)) = some (.dep, [0, 1, 2, 3, 4]) :=
-  umPlan_dep_counterexample
+/-- **any admissible `UM_List`** (branch choice, re-partition and final reordering together): DOF are named
+by their uset rows; `ddof` = dependent DOF, `idof` = independent DOF in uset order, `mdof` = the m-set
+(duplicate-free, inside `ddof ∪ idof`, as many as `ddof`).  If `R` maps the independent rigid-body rows `Zi`
+to the dependent ones `Zd`, then whatever `umPlan` decides, the matrix `Y` returned by `umApplyMx` has one row
+per m-set DOF and one column per remaining DOF (uset order) and maps the rigid-body rows of the remaining
+DOF to the rigid-body rows of the m-set DOF — provided the block the branch inverts is invertible -/
+theorem rbe3_um_any {K : Type} [Field K] {s : ℕ} {ddof idof mdof : List ℕ} {nuset : ℕ}
+    (adm : UmAdmissible ddof idof mdof nuset) (solve : Solver K) (hs : ExactSolve solve)
+    (R : Mx K ddof.length idof.length) (Zi : Mx K idof.length s) (Zd : Mx K ddof.length s)
+    (h : toM R * toM Zi = toM Zd) (hd0 : 0 < ddof.length) (hi0 : 0 < idof.length)
+    {p : UmPlan} (hp : umPlan ddof idof mdof nuset = some p)
+    {Y : Mx K p.rowOrd.length p.colOrd.length} (hY : umApplyMx solve hd0 hi0 R p = some Y)
+    (hinvI : p.branch = .indep → ∀ hl : p.im.length = ddof.length,
+      IsUnit (toM (R.selCols fun i => idxMap p.im idof.length hi0 (Fin.cast hl.symm i))).det)
+    (hinvM : p.branch = .mixed → ∀ hl : p.dn.length = p.im.length,
+      IsUnit (toM ((R.selRows fun i => idxMap p.dn ddof.length hd0 (Fin.cast hl.symm i)).selCols
+        (idxMap p.im idof.length hi0))).det) :
+    Repro (zKey ddof idof Zd Zi) Y mdof (restKeys ddof idof mdof nuset)
+      ∧ p.rowOrd.length = mdof.length ∧ p.colOrd.length = (restKeys ddof idof mdof nuset).length :=
+  umApplyMx_repro adm solve hs R Zi Zd h hd0 hi0 hp hY hinvI hinvM
 
-theorem um_plan_indep_counterexample :
-    umPlan [24, 25, 26, 27, 28, 29] [0, 1, 2, 6, 7, 8, 12, 13, 14, 18, 19, 20]
-      [1, 2, 6, 8, 13, 24] 30 = none :=
-  umPlan_indep_counterexample
+/-- … for `formrbe3`'s own matrix: with positive weights and independent rows of full column rank, every
+admissible `UM_List` gives a matrix that reproduces rigid-body motion (relative to any point `ref`) with the
+m-set as dependent DOF -/
+theorem rbe3_um_any_grids {ddof idof mdof : List ℕ} {nuset : ℕ}
+    (adm : UmAdmissible ddof idof mdof nuset) (solve : Solver ℝ) (hs : ExactSolve solve)
+    (grids : List (GridR ℝ)) (dep : GridR ℝ) (dd : Fin ddof.length → Fin 6)
+    (ind : Fin idof.length → IndDof ℝ) (hw : ∀ k, 0 < (ind k).w)
+    (hrank : Function.Injective (toM (indRows ind dep.p)).mulVec) (ref : V3 ℝ)
+    (hd0 : 0 < ddof.length) (hi0 : 0 < idof.length)
+    {p : UmPlan} (hp : umPlan ddof idof mdof nuset = some p)
+    {Y : Mx ℝ p.rowOrd.length p.colOrd.length}
+    (hY : umApplyMx solve hd0 hi0 (rbe3Grid solve grids dep dd ind).mx p = some Y)
+    (hinvI : p.branch = .indep → ∀ hl : p.im.length = ddof.length,
+      IsUnit (toM ((rbe3Grid solve grids dep dd ind).mx.selCols
+        fun i => idxMap p.im idof.length hi0 (Fin.cast hl.symm i))).det)
+    (hinvM : p.branch = .mixed → ∀ hl : p.dn.length = p.im.length,
+      IsUnit (toM (((rbe3Grid solve grids dep dd ind).mx.selRows
+        fun i => idxMap p.dn ddof.length hd0 (Fin.cast hl.symm i)).selCols
+        (idxMap p.im idof.length hi0))).det) :
+    Repro (zKey ddof idof ((gridRowsMx dep ref).selRows dd) (indRows ind ref)) Y mdof
+        (restKeys ddof idof mdof nuset)
+      ∧ p.rowOrd.length = mdof.length ∧ p.colOrd.length = (restKeys ddof idof mdof nuset).length :=
+  umApplyMx_repro adm solve hs _ _ _
+    (rbe3Grid_mul_indRows solve hs grids dep dd ind hw hrank ref) hd0 hi0 hp hY hinvI hinvM
+
+/-- the admissibility conditions are inhabited (the first regression input of 959e8e9) -/
+example : UmAdmissible [24, 25, 26, 27, 28, 29] [0, 1, 2, 6, 7, 8, 12, 13, 14, 18, 19, 20]
+    [0, 24, 25, 26, 27, 28] 30 :=
+  ⟨by decide, by decide, by decide, by decide, by decide, by decide⟩
+
+/-- the two inputs that went wrong before the repair 959e8e9 (truth value of an index array): the m-set
+holds the first independent DOF (uset row 0) and five dependent DOF -> mixed branch, 5 + 1 = 6 rows -/
+example : (umPlan [24, 25, 26, 27, 28, 29] [0, 1, 2, 6, 7, 8, 12, 13, 14, 18, 19, 20]
+      [0, 24, 25, 26, 27, 28] 30).map (fun p => (p.branch, p.dm, p.dn, p.im, p.rowOrd.length))
+    = some (.mixed, [0, 1, 2, 3, 4], [5], [0], 6) := by decide
+
+/-- … and the m-set is the single (first) dependent DOF -> "m-set = dependent DOF", one row -/
+example : (umPlan [26] [0, 1, 2, 6, 7, 8, 12, 13, 14, 18, 19, 20] [26] 30).map
+    (fun p => (p.branch, p.dm, p.rowOrd.length)) = some (.dep, [0], 1) := by decide
+
+/-- … and the first dependent DOF with five independent DOF -> mixed branch (used to raise) -/
+example : (umPlan [24, 25, 26, 27, 28, 29] [0, 1, 2, 6, 7, 8, 12, 13, 14, 18, 19, 20]
+      [1, 2, 6, 8, 13, 24] 30).map (fun p => (p.branch, p.dm, p.im, p.rowOrd.length))
+    = some (.mixed, [0], [1, 2, 3, 5, 7], 6) := by decide
 
 example : (umPlan [24, 25, 26, 27, 28, 29] [0, 1, 2, 6, 7, 8] [0, 1, 2, 6, 7, 8] 30).map (·.branch)
     = some .indep := by decide
